@@ -118,7 +118,6 @@ Proof. unfold decode_obs. rewrite dec_enc by lia. reflexivity. Qed.
 
 (* ---------------------------------------------------------------------------------------- *)
 (* the monitor's bookkeeping over the notifications of a step, in terms of the model's events *)
-Definition ust (s : tstate) : bool := pz (s_proof s) =? -1.     (* decoded as unconfirmed *)
 
 (* (is new, txid, state) of a transaction notification *)
 Definition tev (e : event) : option (bool * Z * tstate) :=
@@ -128,22 +127,61 @@ Definition tev (e : event) : option (bool * Z * tstate) :=
   | EHeaders _ _ => None
   end.
 
+Definition tkey (e : event) : option Z :=
+  match tev e with Some (_, t, _) => Some t | None => None end.
+Definition tkeys (evs : list event) : list Z := omap tkey evs.
+
+Lemma tkeys_app evs1 evs2 : tkeys (evs1 ++ evs2) = tkeys evs1 ++ tkeys evs2.
+Proof. apply omap_app. Qed.
+
+(* a transaction notification for x with state s occurs in evs *)
+Definition tev_in (evs : list event) (x : Z) (s : tstate) : Prop :=
+  ETx x s ∈ evs \/ EUpdate x s ∈ evs.
+
+Lemma tev_in_nil x s : ~ tev_in [] x s.
+Proof. intros [H|H]; apply elem_of_nil in H; exact H. Qed.
+
+Lemma tev_in_app evs1 evs2 x s : tev_in (evs1 ++ evs2) x s <-> tev_in evs1 x s \/ tev_in evs2 x s.
+Proof. unfold tev_in. rewrite !elem_of_app. tauto. Qed.
+
+Lemma tev_in_single e x s : tev_in [e] x s <-> e = ETx x s \/ e = EUpdate x s.
+Proof. unfold tev_in. rewrite !elem_of_list_singleton. split; intros [H|H]; auto. Qed.
+
+Lemma tev_in_tev evs x s : tev_in evs x s <-> exists e nw, e ∈ evs /\ tev e = Some (nw, x, s).
+Proof.
+  split.
+  - intros [H|H]; eexists; eexists; (split; [exact H|reflexivity]).
+  - intros (e & nw & He & Ht). destruct e; cbn in Ht; inversion Ht; subst; [left|right]; exact He.
+Qed.
+
+Lemma tkeys_elem evs t : t ∈ tkeys evs <-> exists s, tev_in evs t s.
+Proof.
+  unfold tkeys. rewrite elem_of_list_omap. split.
+  - intros (e & He & Hk). destruct e as [t' s|t' s|h b]; cbn in Hk; inversion Hk; subst;
+      exists s; [left|right]; exact He.
+  - intros (s & [H|H]); eexists; (split; [exact H|reflexivity]).
+Qed.
+
+(* the state of the notification is confirmed by a block of the chain *)
+Definition cnf (chain : list Z) (s : tstate) : bool := mem (pz (s_proof s)) chain.
+
 Definition note1 (m : ms) (nw : bool) (t : Z) (s : tstate) : ms :=
+  let c := cnf (m_chain m) s in
+  let safe0 := if nw then remove_z t (m_safe m) else m_safe m in
   MS (m_pool m)
      (if nw then add_z t (m_delivered m) else m_delivered m)
-     (if ust s then (if nw then add_z t (m_live m) else m_live m) else remove_z t (m_live m))
-     (if nw && ust s then (t, m_clock m) :: m_seen m else m_seen m)
+     (if c then remove_z t (m_live m) else (if nw then add_z t (m_live m) else m_live m))
+     (if nw && negb c then (t, m_clock m) :: m_seen m else m_seen m)
      (m_vouched m) (m_conflicted m)
      (if s_unsafe s || s_cancel s then add_z t (m_unsafe m) else m_unsafe m)
-     (if s_safe s && ust s then add_z t (m_safe m) else m_safe m)
-     (m_local m) (m_clock m) (m_insync m) (m_chain m) (m_vnow m) (m_vpersist m).
+     (if s_safe s && negb c then add_z t safe0 else safe0)
+     (m_local m) (m_clock m) (m_insync m) (m_chain m) (m_vnow m) (m_vpersist m)
+     (if pz (s_proof s) =? -1 then m_proofs m else (t, pz (s_proof s)) :: m_proofs m).
 
 Lemma note_event_ev_of m e :
   note_event m (ev_of e) = match tev e with Some (nw, t, s) => note1 m nw t s | None => m end.
 Proof.
-  destruct e as [t s|t s|h b]; unfold note_event, note1, ust; cbn; try reflexivity.
-  - destruct (pz (s_proof s) =? -1); reflexivity.
-  - destruct (pz (s_proof s) =? -1); reflexivity.
+  destruct e as [t s|t s|h b]; unfold note_event, note1, cnf; cbn; try reflexivity.
 Qed.
 
 Definition notes (m : ms) (evs : list event) : ms := fold_left note_event (map ev_of evs) m.
@@ -172,6 +210,9 @@ Qed.
 Lemma notes_clock m evs : m_clock (notes m evs) = m_clock m.
 Proof. apply (notes_frame m evs). Qed.
 
+Lemma notes_chain m evs : m_chain (notes m evs) = m_chain m.
+Proof. apply (notes_frame m evs). Qed.
+
 Lemma notes_delivered m evs x :
   x ∈ m_delivered (notes m evs) <-> x ∈ m_delivered m \/ exists s, ETx x s ∈ evs.
 Proof.
@@ -190,26 +231,6 @@ Proof.
     + unfold note1. cbn [m_delivered]. rewrite IH. split; [tauto|].
       intros [H|[H|(s' & Heq)]]; [tauto|tauto|discriminate].
     + rewrite IH. split; [tauto|]. intros [H|[H|(s' & Heq)]]; [tauto|tauto|discriminate].
-Qed.
-
-(* a transaction notification for x with state s occurs in evs *)
-Definition tev_in (evs : list event) (x : Z) (s : tstate) : Prop :=
-  ETx x s ∈ evs \/ EUpdate x s ∈ evs.
-
-Lemma tev_in_nil x s : ~ tev_in [] x s.
-Proof. intros [H|H]; apply elem_of_nil in H; exact H. Qed.
-
-Lemma tev_in_app evs1 evs2 x s : tev_in (evs1 ++ evs2) x s <-> tev_in evs1 x s \/ tev_in evs2 x s.
-Proof. unfold tev_in. rewrite !elem_of_app. tauto. Qed.
-
-Lemma tev_in_single e x s : tev_in [e] x s <-> e = ETx x s \/ e = EUpdate x s.
-Proof. unfold tev_in. rewrite !elem_of_list_singleton. split; intros [H|H]; auto. Qed.
-
-Lemma tev_in_tev evs x s : tev_in evs x s <-> exists e nw, e ∈ evs /\ tev e = Some (nw, x, s).
-Proof.
-  split.
-  - intros [H|H]; eexists; eexists; (split; [exact H|reflexivity]).
-  - intros (e & nw & He & Ht). destruct e; cbn in Ht; inversion Ht; subst; [left|right]; exact He.
 Qed.
 
 (* generic: a set-like list field that grows by add_z t when a condition on the state holds *)
@@ -247,20 +268,98 @@ Lemma notes_unsafe m evs x :
   x ∈ m_unsafe m \/ exists s, tev_in evs x s /\ (s_unsafe s || s_cancel s) = true.
 Proof. apply (notes_grow m_unsafe (fun s => s_unsafe s || s_cancel s)). reflexivity. Qed.
 
-Lemma notes_safe m evs x :
+(* the notification of x is the last one of the list: nothing else of the list is about x *)
+Lemma tkeys_snoc_fresh evs e nw t s :
+  NoDup (tkeys (evs ++ [e])) -> tev e = Some (nw, t, s) -> NoDup (tkeys evs) /\ t ∉ tkeys evs.
+Proof.
+  intros Hnd He. rewrite tkeys_app in Hnd. apply NoDup_app in Hnd. destruct Hnd as (H1 & H2 & _).
+  split; [exact H1|]. intros Hin. apply (H2 t Hin). unfold tkeys. cbn. unfold tkey. rewrite He. left.
+Qed.
+
+Lemma tkeys_snoc_none evs e : tev e = None -> tkeys (evs ++ [e]) = tkeys evs.
+Proof. intros He. rewrite tkeys_app. unfold tkeys at 2. cbn. unfold tkey. rewrite He. apply app_nil_r. Qed.
+
+(* safe: a new-transaction notification restarts the bookkeeping of the transaction *)
+Lemma notes_safe m evs x : NoDup (tkeys evs) ->
   x ∈ m_safe (notes m evs) <->
-  x ∈ m_safe m \/ exists s, tev_in evs x s /\ (s_safe s && ust s) = true.
-Proof. apply (notes_grow m_safe (fun s => s_safe s && ust s)). reflexivity. Qed.
+  (x ∈ m_safe m /\ forall s, ETx x s ∉ evs) \/
+  exists s, tev_in evs x s /\ (s_safe s && negb (cnf (m_chain m) s)) = true.
+Proof.
+  induction evs as [|e evs IH] using rev_ind; intros Hnd.
+  - rewrite notes_nil. split.
+    + intros H. left. split; [exact H|]. intros s. apply not_elem_of_nil.
+    + intros [[H _]|(s & H & _)]; [exact H|]. destruct (tev_in_nil _ _ H).
+  - rewrite notes_snoc. destruct (tev e) as [[[nw t] s]|] eqn:Et.
+    + destruct (tkeys_snoc_fresh _ _ _ _ _ Hnd Et) as [Hnd' Hfr]. specialize (IH Hnd').
+      assert (He : e = ETx t s /\ nw = true \/ e = EUpdate t s /\ nw = false).
+      { destruct e; cbn in Et; inversion Et; subst; auto. }
+      unfold note1. cbn [m_safe]. rewrite notes_chain.
+      assert (Hother : x <> t ->
+                ((x ∈ m_safe m /\ (forall s0, ETx x s0 ∉ evs ++ [e])) \/
+                 (exists s0, tev_in (evs ++ [e]) x s0 /\ (s_safe s0 && negb (cnf (m_chain m) s0)) = true)) <->
+                ((x ∈ m_safe m /\ (forall s0, ETx x s0 ∉ evs)) \/
+                 (exists s0, tev_in evs x s0 /\ (s_safe s0 && negb (cnf (m_chain m) s0)) = true))).
+      { intros Hne. split.
+        - intros [[H1 H2]|(s0 & H1 & H2)].
+          + left. split; [exact H1|]. intros s0 Hin. apply (H2 s0), elem_of_app. left. exact Hin.
+          + right. exists s0. split; [|exact H2]. apply tev_in_app in H1. destruct H1 as [H1|H1]; [exact H1|].
+            apply tev_in_single in H1. destruct He as [[-> _]|[-> _]]; destruct H1 as [H1|H1]; inversion H1; congruence.
+        - intros [[H1 H2]|(s0 & H1 & H2)].
+          + left. split; [exact H1|]. intros s0 Hin. apply elem_of_app in Hin. destruct Hin as [Hin|Hin]; [apply (H2 s0 Hin)|].
+            apply elem_of_list_singleton in Hin. destruct He as [[-> _]|[-> _]]; inversion Hin; congruence.
+          + right. exists s0. split; [|exact H2]. apply tev_in_app. left. exact H1. }
+      destruct (decide (x = t)) as [->|Hne].
+      * (* the notification is about x *)
+        assert (Hno : forall s0, ~ tev_in evs t s0).
+        { intros s0 H. apply Hfr, tkeys_elem. eauto. }
+        assert (Hold : t ∈ m_safe (notes m evs) <-> t ∈ m_safe m).
+        { rewrite IH. split.
+          - intros [[H _]|(s0 & H & _)]; [exact H|]. destruct (Hno s0 H).
+          - intros H. left. split; [exact H|]. intros s0 Hin. apply (Hno s0). left. exact Hin. }
+        assert (Hev : (exists s0, tev_in (evs ++ [e]) t s0 /\ (s_safe s0 && negb (cnf (m_chain m) s0)) = true) <->
+                      (s_safe s && negb (cnf (m_chain m) s)) = true).
+        { split.
+          - intros (s0 & H1 & H2). apply tev_in_app in H1. destruct H1 as [H1|H1]; [destruct (Hno s0 H1)|].
+            apply tev_in_single in H1. destruct He as [[-> _]|[-> _]]; destruct H1 as [H1|H1]; inversion H1; subst; exact H2.
+          - intros H. exists s. split; [|exact H]. apply tev_in_app. right. apply tev_in_single.
+            destruct He as [[-> _]|[-> _]]; auto. }
+        rewrite Hev. destruct He as [[-> ->]|[-> ->]].
+        -- (* new: restart *)
+           destruct (s_safe s && negb (cnf (m_chain m) s)) eqn:Ec.
+           ++ rewrite add_z_elem. split; [auto|]. intros _. right. reflexivity.
+           ++ rewrite remove_z_elem. split; [intros [_ H]; congruence|].
+              intros [[_ H]|H]; [|discriminate]. exfalso. apply (H s), elem_of_app. right. left.
+        -- destruct (s_safe s && negb (cnf (m_chain m) s)) eqn:Ec.
+           ++ rewrite add_z_elem. split; [auto|]. intros _. right. reflexivity.
+           ++ rewrite Hold. split.
+              ** intros H. left. split; [exact H|]. intros s0 Hin. apply elem_of_app in Hin.
+                 destruct Hin as [Hin|Hin]; [apply (Hno s0); left; exact Hin|].
+                 apply elem_of_list_singleton in Hin. discriminate.
+              ** intros [[H _]|H]; [exact H|discriminate].
+      * rewrite (Hother Hne), <- IH.
+        destruct nw; destruct (s_safe s && negb (cnf (m_chain m) s));
+          rewrite ?add_z_elem, ?remove_z_elem; tauto.
+    + specialize (IH (eq_ind _ (fun l => NoDup l) Hnd _ (tkeys_snoc_none evs e Et))).
+      rewrite IH. split.
+      * intros [[H1 H2]|(s0 & H1 & H2)].
+        -- left. split; [exact H1|]. intros s0 Hin. apply elem_of_app in Hin. destruct Hin as [Hin|Hin]; [apply (H2 s0 Hin)|].
+           apply elem_of_list_singleton in Hin. subst e. discriminate.
+        -- right. exists s0. split; [|exact H2]. apply tev_in_app. left. exact H1.
+      * intros [[H1 H2]|(s0 & H1 & H2)].
+        -- left. split; [exact H1|]. intros s0 Hin. apply (H2 s0), elem_of_app. left. exact Hin.
+        -- right. exists s0. split; [|exact H2]. apply tev_in_app in H1. destruct H1 as [H1|H1]; [exact H1|].
+           apply tev_in_single in H1. destruct H1 as [H1|H1]; subst e; discriminate.
+Qed.
 
 (* live: steps whose notifications are all unconfirmed only add *)
 Lemma notes_live_add m evs x :
-  (forall y s, tev_in evs y s -> ust s = true) ->
+  (forall y s, tev_in evs y s -> cnf (m_chain m) s = false) ->
   x ∈ m_live (notes m evs) <-> x ∈ m_live m \/ exists s, ETx x s ∈ evs.
 Proof.
   induction evs as [|e evs IH] using rev_ind; intros Hall.
   - rewrite notes_nil. split; [tauto|]. intros [H|(s & H)]; [exact H|]. apply elem_of_nil in H. destruct H.
   - rewrite notes_snoc.
-    assert (Hall' : forall y s, tev_in evs y s -> ust s = true).
+    assert (Hall' : forall y s, tev_in evs y s -> cnf (m_chain m) s = false).
     { intros y s H. apply (Hall y s), tev_in_app. left. exact H. }
     specialize (IH Hall').
     assert (Hex : (exists s, ETx x s ∈ evs ++ [e]) <-> (exists s, ETx x s ∈ evs) \/ (exists s, e = ETx x s)).
@@ -270,33 +369,33 @@ Proof.
       - intros [(s & H)|(s & ->)]; exists s; apply elem_of_app; [left; exact H|right; left]. }
     rewrite Hex. clear Hex.
     destruct e as [t s|t s|h b]; cbn [tev].
-    + assert (Hu : ust s = true).
+    + assert (Hu : cnf (m_chain m) s = false).
       { apply (Hall t s), tev_in_app. right. apply tev_in_single. auto. }
-      unfold note1. cbn [m_live]. rewrite Hu, add_z_elem, IH. split.
+      unfold note1. cbn [m_live]. rewrite notes_chain, Hu, add_z_elem, IH. split.
       * intros [[H|H]| ->]; [tauto|tauto|]. right. right. eauto.
       * intros [H|[H|(s' & Heq)]]; [tauto|tauto|]. inversion Heq. tauto.
-    + assert (Hu : ust s = true).
+    + assert (Hu : cnf (m_chain m) s = false).
       { apply (Hall t s), tev_in_app. right. apply tev_in_single. auto. }
-      unfold note1. cbn [m_live]. rewrite Hu, IH. split; [tauto|].
+      unfold note1. cbn [m_live]. rewrite notes_chain, Hu, IH. split; [tauto|].
       intros [H|[H|(s' & Heq)]]; [tauto|tauto|discriminate].
     + rewrite IH. split; [tauto|]. intros [H|[H|(s' & Heq)]]; [tauto|tauto|discriminate].
 Qed.
 
 (* live: steps whose new-transaction notifications are all confirmed only remove *)
 Lemma notes_live_rem m evs x :
-  (forall y s, ETx y s ∈ evs -> ust s = false) ->
-  x ∈ m_live (notes m evs) <-> x ∈ m_live m /\ ~ exists s, tev_in evs x s /\ ust s = false.
+  (forall y s, ETx y s ∈ evs -> cnf (m_chain m) s = true) ->
+  x ∈ m_live (notes m evs) <-> x ∈ m_live m /\ ~ exists s, tev_in evs x s /\ cnf (m_chain m) s = true.
 Proof.
   induction evs as [|e evs IH] using rev_ind; intros Hall.
   - rewrite notes_nil. split; [|tauto]. intros H. split; [exact H|].
     intros (s & H' & _). destruct (tev_in_nil _ _ H').
   - rewrite notes_snoc.
-    assert (Hall' : forall y s, ETx y s ∈ evs -> ust s = false).
+    assert (Hall' : forall y s, ETx y s ∈ evs -> cnf (m_chain m) s = true).
     { intros y s H. apply (Hall y s), elem_of_app. left. exact H. }
     specialize (IH Hall').
-    assert (Hex : (exists s, tev_in (evs ++ [e]) x s /\ ust s = false) <->
-                  (exists s, tev_in evs x s /\ ust s = false) \/
-                  (exists s, (e = ETx x s \/ e = EUpdate x s) /\ ust s = false)).
+    assert (Hex : (exists s, tev_in (evs ++ [e]) x s /\ cnf (m_chain m) s = true) <->
+                  (exists s, tev_in evs x s /\ cnf (m_chain m) s = true) \/
+                  (exists s, (e = ETx x s \/ e = EUpdate x s) /\ cnf (m_chain m) s = true)).
     { split.
       - intros (s & H & Hc). apply tev_in_app in H. destruct H as [H|H]; [left; eauto|].
         apply tev_in_single in H. right; eauto.
@@ -304,63 +403,103 @@ Proof.
           [left; exact H | right; apply tev_in_single; exact H]. }
     rewrite Hex. clear Hex.
     destruct e as [t s|t s|h b]; cbn [tev].
-    + assert (Hu : ust s = false).
+    + assert (Hu : cnf (m_chain m) s = true).
       { apply (Hall t s), elem_of_app. right. left. }
-      unfold note1. cbn [m_live]. rewrite Hu, remove_z_elem, IH. split.
+      unfold note1. cbn [m_live]. rewrite notes_chain, Hu, remove_z_elem, IH. split.
       * intros [[H1 H2] Hne]. split; [exact H1|]. intros [H|(s' & [Heq|Heq] & _)]; [tauto| |discriminate].
         inversion Heq. congruence.
       * intros [H1 H2]. split; [split; [exact H1|tauto]|]. intros ->. apply H2. right. eauto.
-    + unfold note1. cbn [m_live]. destruct (ust s) eqn:Hu.
-      * rewrite IH. split.
-        -- intros [H1 H2]. split; [exact H1|]. intros [H|(s' & [Heq|Heq] & Hc)]; [tauto|discriminate|].
-           inversion Heq. congruence.
-        -- intros [H1 H2]. split; [exact H1|tauto].
+    + unfold note1. cbn [m_live]. rewrite notes_chain. destruct (cnf (m_chain m) s) eqn:Hu.
       * rewrite remove_z_elem, IH. split.
         -- intros [[H1 H2] Hne]. split; [exact H1|]. intros [H|(s' & [Heq|Heq] & _)]; [tauto|discriminate|].
            inversion Heq. congruence.
         -- intros [H1 H2]. split; [split; [exact H1|tauto]|]. intros ->. apply H2. right. eauto.
+      * rewrite IH. split.
+        -- intros [H1 H2]. split; [exact H1|]. intros [H|(s' & [Heq|Heq] & Hc)]; [tauto|discriminate|].
+           inversion Heq. congruence.
+        -- intros [H1 H2]. split; [exact H1|tauto].
     + rewrite IH. split.
       * intros [H1 H2]. split; [exact H1|]. intros [H|(s' & [Heq|Heq] & _)]; [tauto|discriminate|discriminate].
       * intros [H1 H2]. split; [exact H1|tauto].
 Qed.
 
-Lemma lookup_seen_cons m t c x pool dl lv vo cf us sf lo ck sy ch vn vp :
-  lookup_seen (MS pool dl lv ((t, c) :: m_seen m) vo cf us sf lo ck sy ch vn vp) x =
+Lemma lookup_seen_cons m t c x pool dl lv vo cf us sf lo ck sy ch vn vp pr :
+  lookup_seen (MS pool dl lv ((t, c) :: m_seen m) vo cf us sf lo ck sy ch vn vp pr) x =
   if t =? x then Some c else lookup_seen m x.
 Proof. unfold lookup_seen. cbn. destruct (t =? x); reflexivity. Qed.
 
 Lemma notes_seen_new m evs x :
-  (exists s, ETx x s ∈ evs /\ ust s = true) -> lookup_seen (notes m evs) x = Some (m_clock m).
+  (exists s, ETx x s ∈ evs /\ cnf (m_chain m) s = false) -> lookup_seen (notes m evs) x = Some (m_clock m).
 Proof.
   induction evs as [|e evs IH] using rev_ind; intros (s & Hin & Hu).
   - apply elem_of_nil in Hin. destruct Hin.
   - rewrite notes_snoc. apply elem_of_app in Hin.
     destruct e as [t s'|t s'|h b]; cbn [tev].
-    + unfold note1. cbn [andb]. destruct (ust s') eqn:Hu'.
+    + unfold note1. cbn [andb]. rewrite notes_chain. destruct (cnf (m_chain m) s') eqn:Hu'; cbn [negb].
+      * unfold lookup_seen. cbn [m_seen]. apply IH. destruct Hin as [Hin|Hin]; [eauto|].
+        apply elem_of_list_singleton in Hin. inversion Hin. subst. congruence.
       * rewrite lookup_seen_cons, notes_clock. destruct (t =? x) eqn:E; [reflexivity|].
         apply IH. destruct Hin as [Hin|Hin]; [eauto|]. apply elem_of_list_singleton in Hin.
         inversion Hin. subst. rewrite Z.eqb_refl in E. discriminate.
-      * unfold lookup_seen. cbn [m_seen]. apply IH. destruct Hin as [Hin|Hin]; [eauto|].
-        apply elem_of_list_singleton in Hin. inversion Hin. subst. congruence.
     + unfold note1. cbn [andb]. unfold lookup_seen. cbn [m_seen]. apply IH.
       destruct Hin as [Hin|Hin]; [eauto|]. apply elem_of_list_singleton in Hin. discriminate.
     + apply IH. destruct Hin as [Hin|Hin]; [eauto|]. apply elem_of_list_singleton in Hin. discriminate.
 Qed.
 
 Lemma notes_seen_old m evs x :
-  (forall s, ETx x s ∈ evs -> ust s = false) -> lookup_seen (notes m evs) x = lookup_seen m x.
+  (forall s, ETx x s ∈ evs -> cnf (m_chain m) s = true) -> lookup_seen (notes m evs) x = lookup_seen m x.
 Proof.
   induction evs as [|e evs IH] using rev_ind; intros Hall; [reflexivity|].
   rewrite notes_snoc.
   assert (IH' : lookup_seen (notes m evs) x = lookup_seen m x).
   { apply IH. intros s H. apply Hall, elem_of_app. left. exact H. }
   destruct e as [t s'|t s'|h b]; cbn [tev]; [| |exact IH'].
-  - unfold note1. cbn [andb]. destruct (ust s') eqn:Hu'.
+  - unfold note1. cbn [andb]. rewrite notes_chain. destruct (cnf (m_chain m) s') eqn:Hu'; cbn [negb].
+    + exact IH'.
     + rewrite lookup_seen_cons. destruct (t =? x) eqn:E; [|exact IH'].
       apply Z.eqb_eq in E. subst t. rewrite (Hall s') in Hu'; [discriminate|].
       apply elem_of_app. right. left.
-    + exact IH'.
   - exact IH'.
+Qed.
+
+(* the last proof notified *)
+Lemma lookup_proof_cons m t p x pool dl lv se vo cf us sf lo ck sy ch vn vp :
+  lookup_proof (MS pool dl lv se vo cf us sf lo ck sy ch vn vp ((t, p) :: m_proofs m)) x =
+  if t =? x then Some p else lookup_proof m x.
+Proof. unfold lookup_proof. cbn. destruct (t =? x); reflexivity. Qed.
+
+Lemma notes_proof_out m evs x : x ∉ tkeys evs -> lookup_proof (notes m evs) x = lookup_proof m x.
+Proof.
+  induction evs as [|e evs IH] using rev_ind; intros Hk; [reflexivity|].
+  rewrite notes_snoc. rewrite tkeys_app, not_elem_of_app in Hk. destruct Hk as [Hk1 Hk2]. specialize (IH Hk1).
+  destruct (tev e) as [[[nw t] s]|] eqn:Et; [|exact IH].
+  assert (Hne : t <> x).
+  { intros ->. apply Hk2. unfold tkeys. cbn. unfold tkey. rewrite Et. left. }
+  unfold note1. destruct (pz (s_proof s) =? -1).
+  - unfold lookup_proof. cbn [m_proofs]. exact IH.
+  - rewrite lookup_proof_cons. apply Z.eqb_neq in Hne. rewrite Hne. exact IH.
+Qed.
+
+Lemma notes_proof_in m evs x s : NoDup (tkeys evs) -> tev_in evs x s ->
+  lookup_proof (notes m evs) x = if pz (s_proof s) =? -1 then lookup_proof m x else Some (pz (s_proof s)).
+Proof.
+  induction evs as [|e evs IH] using rev_ind; intros Hnd Hin; [destruct (tev_in_nil _ _ Hin)|].
+  rewrite notes_snoc. destruct (tev e) as [[[nw t] s']|] eqn:Et.
+  - destruct (tkeys_snoc_fresh _ _ _ _ _ Hnd Et) as [Hnd' Hfr].
+    apply tev_in_app in Hin. destruct Hin as [Hin|Hin].
+    + assert (Hne : t <> x).
+      { intros ->. apply Hfr, tkeys_elem. eauto. }
+      unfold note1. destruct (pz (s_proof s') =? -1).
+      * unfold lookup_proof. cbn [m_proofs]. apply (IH Hnd' Hin).
+      * rewrite lookup_proof_cons. apply Z.eqb_neq in Hne. rewrite Hne. apply (IH Hnd' Hin).
+    + apply tev_in_single in Hin.
+      assert (t = x /\ s' = s) as [-> ->].
+      { destruct Hin as [-> | ->]; cbn in Et; inversion Et; auto. }
+      unfold note1. destruct (pz (s_proof s) =? -1).
+      * unfold lookup_proof. cbn [m_proofs]. apply notes_proof_out, Hfr.
+      * rewrite lookup_proof_cons, Z.eqb_refl. reflexivity.
+  - rewrite (tkeys_snoc_none evs e Et) in Hnd. apply tev_in_app in Hin. destruct Hin as [Hin|Hin]; [apply (IH Hnd Hin)|].
+    apply tev_in_single in Hin. destruct Hin as [-> | ->]; discriminate.
 Qed.
 
 (* ---------------------------------------------------------------------------------------- *)
@@ -428,39 +567,9 @@ Qed.
 
 Definition txids (txs : list btx) : list Z := map (fun x => fst (fst x)) txs.
 
-Lemma dedup_blocks_sub l e : e ∈ dedup_blocks l -> e ∈ l.
-Proof.
-  revert e. induction l as [|a l IH]; intros e H; [exact H|].
-  simpl in H. apply elem_of_cons in H. destruct H as [->|H]; [left|].
-  apply elem_of_list_filter in H. right. apply IH. tauto.
-Qed.
-
-Lemma dedup_blocks_covers l e : e ∈ l -> exists e', e' ∈ dedup_blocks l /\ fst e' = fst e.
-Proof.
-  induction l as [|a l IH]; intros H; [apply elem_of_nil in H; destruct H|].
-  apply elem_of_cons in H. simpl. destruct H as [->|H].
-  - exists a. split; [left|reflexivity].
-  - destruct (decide (fst e = fst a)) as [Heq|Hne].
-    + exists a. split; [left|congruence].
-    + destruct (IH H) as (e' & He' & Hf). exists e'. split; [|exact Hf].
-      right. apply elem_of_list_filter. split; [congruence|exact He'].
-Qed.
-
-Lemma NoDup_flat_map_inj {A} (f : A -> list Z) l e1 e2 t :
-  NoDup (flat_map f l) -> e1 ∈ l -> e2 ∈ l -> t ∈ f e1 -> t ∈ f e2 -> e1 = e2.
-Proof.
-  induction l as [|a l IH]; intros Hnd H1 H2 Ht1 Ht2; [apply elem_of_nil in H1; destruct H1|].
-  simpl in Hnd. apply NoDup_app in Hnd. destruct Hnd as (Ha & Hdis & Hl).
-  assert (Hin : forall e, e ∈ l -> t ∈ f e -> t ∈ flat_map f l).
-  { intros e He Hte. apply elem_of_list_In, in_flat_map. exists e.
-    split; apply elem_of_list_In; assumption. }
-  apply elem_of_cons in H1. apply elem_of_cons in H2.
-  destruct H1 as [->|H1], H2 as [->|H2].
-  - reflexivity.
-  - destruct (Hdis t Ht1). eapply Hin; eauto.
-  - destruct (Hdis t Ht2). eapply Hin; eauto.
-  - apply IH; assumption.
-Qed.
+(* the block message of a block / reorg step *)
+Definition blk_of (o : op) : option (Z * Z * list btx * bool) :=
+  match o with OBlock b p txs v | OReorg b p txs v => Some (b, p, txs, v) | _ => None end.
 
 Record valid (delay : Z) (all : list op) : Prop := mkValid {
   v_delay : 0 <= delay;
@@ -468,24 +577,22 @@ Record valid (delay : Z) (all : list op) : Prop := mkValid {
       (t, b1, r1) ∈ flat_map mentions all -> (t, b2, r2) ∈ flat_map mentions all -> b1 = b2 /\ r1 = r2;
   v_nodup : forall t b r, (t, b, r) ∈ flat_map mentions all -> NoDup b;
   v_adv : forall dt, OAdvance dt ∈ all -> 0 <= dt;
-  v_blk : forall b p txs v, OBlock b p txs v ∈ all -> 0 < b /\ pairwise_disjoint txs = true;
-  v_uniq : forall b1 p1 txs1 v1 b2 p2 txs2 v2 t,
-      OBlock b1 p1 txs1 v1 ∈ all -> OBlock b2 p2 txs2 v2 ∈ all ->
-      t ∈ txids txs1 -> t ∈ txids txs2 -> b1 = b2 }.
+  v_blk : forall o b p txs v, o ∈ all -> blk_of o = Some (b, p, txs, v) -> 0 < b /\ pairwise_disjoint txs = true;
+  v_bcons : forall o1 o2 b p1 txs1 v1 p2 txs2 v2, o1 ∈ all -> o2 ∈ all ->
+      blk_of o1 = Some (b, p1, txs1, v1) -> blk_of o2 = Some (b, p2, txs2, v2) -> txids txs1 = txids txs2 }.
 
-Lemma block_msgs_elem all b txs : (b, txs) ∈ block_msgs all <-> exists p v, OBlock b p txs v ∈ all.
+Lemma block_msgs_elem all o b p txs v : o ∈ all -> blk_of o = Some (b, p, txs, v) -> (b, p, v, txs) ∈ block_msgs all.
 Proof.
-  unfold block_msgs. rewrite elem_of_list_In, in_flat_map. split.
-  - intros (o & Ho & Hin). destruct o; simpl in Hin; try tauto. destruct Hin as [Heq|[]].
-    inversion Heq. subst. apply elem_of_list_In in Ho. eauto.
-  - intros (p & v & H). exists (OBlock b p txs v). split; [apply elem_of_list_In, H|left; reflexivity].
+  intros Ho Hb. unfold block_msgs. apply elem_of_list_In, in_flat_map. exists o.
+  split; [apply elem_of_list_In, Ho|]. destruct o; cbn in Hb; inversion Hb; subst; left; reflexivity.
 Qed.
 
-Lemma flow_valid_valid delay all : flow_valid delay all = true -> valid delay all.
+Lemma flow_valid_valid delay all : flow_valid delay all = true ->
+  valid delay all /\ hyp_from (n_init delay) [] all = true.
 Proof.
   unfold flow_valid. rewrite !andb_true_iff.
-  intros [[[[[Hd Hc] Hn] Ho] Hb] Hu].
-  split.
+  intros [[[[[Hd Hc] Hn] Ho] Hb] Hh].
+  split; [|exact Hh]. split.
   - apply Z.leb_le, Hd.
   - intros t b1 r1 b2 r2 H1 H2. unfold consistent in Hc.
     rewrite forallb_elem in Hc. specialize (Hc _ H1). rewrite forallb_elem in Hc.
@@ -495,30 +602,12 @@ Proof.
   - intros t b r H. rewrite forallb_elem in Hn. specialize (Hn _ H). simpl in Hn.
     apply nodupb_iff, Hn.
   - intros dt H. rewrite forallb_elem in Ho. specialize (Ho _ H). simpl in Ho. apply Z.leb_le, Ho.
-  - intros b p txs v H. rewrite forallb_elem in Ho. specialize (Ho _ H). simpl in Ho.
-    apply andb_true_iff in Ho. destruct Ho as [Ho1 Ho2]. split; [apply Z.ltb_lt, Ho1|exact Ho2].
-  - intros b1 p1 txs1 v1 b2 p2 txs2 v2 t H1 H2 Ht1 Ht2.
-    assert (M1 : (b1, txs1) ∈ block_msgs all) by (apply block_msgs_elem; eauto).
-    assert (M2 : (b2, txs2) ∈ block_msgs all) by (apply block_msgs_elem; eauto).
-    destruct (dedup_blocks_covers _ _ M1) as (e1 & D1 & F1).
-    destruct (dedup_blocks_covers _ _ M2) as (e2 & D2 & F2). simpl in F1, F2.
-    assert (Hcons : forall e e', e ∈ block_msgs all -> e' ∈ block_msgs all -> fst e = fst e' ->
-                                 txids (snd e) = txids (snd e')).
-    { intros e e' He He' Hf. unfold blocks_consistent in Hb. rewrite forallb_elem in Hb.
-      specialize (Hb _ He). rewrite forallb_elem in Hb. specialize (Hb _ He').
-      match type of Hb with (if ?c then _ else _) = _ =>
-        assert (Hc' : c = true) by (apply Z.eqb_eq; exact Hf); rewrite Hc' in Hb end.
-      apply zlist_eq_iff in Hb. exact Hb. }
-    assert (T1 : t ∈ txids (snd e1)).
-    { assert (X : txids (snd e1) = txids txs1).
-      { apply (Hcons e1 (b1, txs1)); [apply dedup_blocks_sub, D1|exact M1|exact F1]. }
-      exact (eq_ind_r (fun l => t ∈ l) Ht1 X). }
-    assert (T2 : t ∈ txids (snd e2)).
-    { assert (X : txids (snd e2) = txids txs2).
-      { apply (Hcons e2 (b2, txs2)); [apply dedup_blocks_sub, D2|exact M2|exact F2]. }
-      exact (eq_ind_r (fun l => t ∈ l) Ht2 X). }
-    apply nodupb_iff in Hu.
-    assert (e1 = e2).
-    { eapply (NoDup_flat_map_inj (fun x => map (fun y => fst (fst y)) (snd x))); eauto. }
-    congruence.
+  - intros o b p txs v H Hbo. rewrite forallb_elem in Ho. specialize (Ho _ H).
+    destruct o; cbn in Hbo; inversion Hbo; subst; cbn in Ho;
+      apply andb_true_iff in Ho; destruct Ho as [Ho1 Ho2]; (split; [apply Z.ltb_lt, Ho1|exact Ho2]).
+  - intros o1 o2 b p1 txs1 v1 p2 txs2 v2 H1 H2 B1 B2.
+    pose proof (block_msgs_elem _ _ _ _ _ _ H1 B1) as M1. pose proof (block_msgs_elem _ _ _ _ _ _ H2 B2) as M2.
+    unfold blocks_consistent in Hb. rewrite forallb_elem in Hb. specialize (Hb _ M1).
+    rewrite forallb_elem in Hb. specialize (Hb _ M2). cbn in Hb. rewrite Z.eqb_refl in Hb.
+    rewrite !andb_true_iff in Hb. destruct Hb as [_ Hb]. apply zlist_eq_iff in Hb. exact Hb.
 Qed.
